@@ -98,7 +98,7 @@ PROPS["C05"] = {
     "trusted_base": ST_TRUSTED + [
         "unit mirgen_state (compile-time half): ContextData, mir::Instruction, StateTreeSkeleton cut verbatim (type parameter instantiated with an opaque StateType; sizes uninterpreted: only sums matter); Context REDUCED to the current ContextData (`self.get_ctxdata()` -> `self.data`), the function table and a ghost log of the emitted instructions (push_inst / block push modelled as appends); consume_and_insert_pushoffset, emit_fncall cut verbatim; the `mem` arm of make_uniop_intrinsic, the literal arm of try_make_delay, the Feed arm of eval_expr (rule X4) and the PopStateOffset epilogue (rule X5: statement range as function); ASSUMED: the induction hypothesis for eval_expr / eval_args (sub-evaluations keep the invariant for the cells they return and only append instructions), vx_add_nowrap for push_sum (bounded by the layout size, `fits`), 64-bit usize, opaque AST helpers (parse of the delay literal, unzip, Value::State)",
         "unit backend_state: the arms PushStateOffset / PopStateOffset / GetState / Delay / Mem / ReturnFeed of ByteCodeGenerator::emit_instruction and of WasmGenerator::translate_instruction cut verbatim (rule X4); vm::Instruction, SelfEvalMode, Config, word_size_for_type cut verbatim; TRUSTED reduced models: intx::U24 (value + checked conversion), u8::try_from(usize), FuncProto (delay_sizes, bytecodes), VStack / find (register allocation, no contract), wasm_encoder::Instruction (8 variants) / MemArg / Function (ghost log of appended instructions), RuntimeFunctionIndices (6 indices), MemoryLayout (alloc_offset), WasmGenerator (5 fields), emit_value_load* (append an uninterpreted load sequence, change nothing else); `bytecodes_dst.unwrap_or_else(|| funcproto.bytecodes.as_mut())` of the ReturnFeed arm is dropped (the destination vector is a parameter); requires: offset < 2^24 (the code panics otherwise), < 256 delays per function (dito), word size <= 0x7fff and alloc_offset < 2^30 (u32 arithmetic of the allocator not to wrap)",
-        "unit vm_storage: StateStorage::{resize, push_pos, pop_pos}, StateStorageStack::{push, pop}, Machine::execute_idx cut verbatim (the `(_name, func)` destructuring of the table entry becomes `.1`), the two sizing statements of Closure::new cut as a function (rule X5); TRUSTED: Vec::resize (helper vx_resize_u64), intx::U24 -> u64, StateStorage::default, reduced FuncProto / Program / Machine (the interpreter loop `execute` abstract: ghost record of the entry, ASSUMED not to resize the global storage)", "unit wasm_state, closure state contexts: closure_state_push_host / closure_state_pop_host and StateStorage::with_size cut (rule X1: `mut caller: Caller<RuntimeState>` -> `state: &mut RuntimeState`), rules N2 / N11 / N27 (`M.entry(K).or_insert_with(|| E);` -> `if !M.contains_key(&K) { M.insert(K, E); }`; `if let Some(X) = M.get_mut(&K) { BODY }` -> remove / BODY / insert); TRUSTED reduced RuntimeState (global_state, closure_states, state_stack), vstd HashMap / Vec specifications; get_current_state (returns `&mut`: which storage is active) is not cut", "unit wasm_state (Verus, UNBOUNDED in the number of state words): state_push_host / state_pop_host / state_mem_host / state_delay_host of wasm.rs cut with rule X1 (as per-cut rewrites); f64::from_bits / to_bits uninterpreted; the expression `time.clamp(0.0, (len-1) as f64) as u64` is replaced by the helper vx_delay_samples whose range fact `<= len-1` is ASSUMED in Verus and DISCHARGED full-domain by the Kani harness delay_samples_in_range; std specifications added for i64::unsigned_abs and Result::unwrap_or",
+        "unit vm_storage: the CallCls arm of Machine::execute (rule X4; `self.call_function(.., move |machine| machine.execute(pos_of_f, Some(cls_i)))` is replaced by a helper that records ONE interpreter run on (pos_of_f, cls) with the context stack it sees and is ASSUMED to leave that stack as it found it); StateStorage::{resize, push_pos, pop_pos}, StateStorageStack::{push, pop}, Machine::execute_idx cut verbatim (the `(_name, func)` destructuring of the table entry becomes `.1`), the two sizing statements of Closure::new cut as a function (rule X5); TRUSTED: Vec::resize (helper vx_resize_u64), intx::U24 -> u64, StateStorage::default, reduced FuncProto / Program / Machine (the interpreter loop `execute` abstract: ghost record of the entry, ASSUMED not to resize the global storage)", "unit wasm_state, closure state contexts: closure_state_push_host / closure_state_pop_host and StateStorage::with_size cut (rule X1: `mut caller: Caller<RuntimeState>` -> `state: &mut RuntimeState`), rules N2 / N11 / N27 (`M.entry(K).or_insert_with(|| E);` -> `if !M.contains_key(&K) { M.insert(K, E); }`; `if let Some(X) = M.get_mut(&K) { BODY }` -> remove / BODY / insert); TRUSTED reduced RuntimeState (global_state, closure_states, state_stack), vstd HashMap / Vec specifications; get_current_state (returns `&mut`: which storage is active) is not cut", "unit wasm_state (Verus, UNBOUNDED in the number of state words): state_push_host / state_pop_host / state_mem_host / state_delay_host of wasm.rs cut with rule X1 (as per-cut rewrites); f64::from_bits / to_bits uninterpreted; the expression `time.clamp(0.0, (len-1) as f64) as u64` is replaced by the helper vx_delay_samples whose range fact `<= len-1` is ASSUMED in Verus and DISCHARGED full-domain by the Kani harness delay_samples_in_range; std specifications added for i64::unsigned_abs and Result::unwrap_or",
         "Kani harness crate: real ringbuffer.rs compiled unchanged (#[path]); StateStorage of vm.rs and StateStorage + state_*_host of wasm.rs cut verbatim (rule X1 for the host functions)",
         "Vec::resize is stubbed by a panicking function in the WASM harnesses: lazy growth is proved unreachable inside a layout-sized storage",
         "the VM instruction arms GetState / SetState / PushStatePos / PopStatePos / Delay / Mem are cut verbatim out of Machine::execute (rule X4: match arm re-headed as a method) together with get_stack / get_stack_range / set_stack / set_stack_range / set_vec_range / to_value, over a REDUCED Machine (fields stack, base_pointer, global_states, delaysizes_pos_stack, one FuncProto with delay_sizes; get_current_state reduced to the global storage, get_fnproto to that one prototype). the Delay arm takes the length from the table entry the instruction names (finding F5, repaired; harness with a two-entry table and a symbolic index)",
@@ -111,7 +111,7 @@ PROPS["C05"] = {
         "compiler half, the part that is NOT under contract: the induction hypothesis of unit mirgen_state is assumed for the recursive calls of eval_expr and for eval_args as a whole (its per-argument closure eval_arg_one is proved, the map / collect / flat_map around it is not); of eval_expr's arms the ones under contract are Feed, Then, If, Let, LetRec, Assign, ArrayAccess (+ eval_block, eval_assign, the mem / delay carriers, emit_fncall and the match pieces) -- Apply (380 lines), Lambda, Proj, FieldAccess, ArrayLiteral, the aggregate allocators and Match's dispatch are not; the threading arms are proved for the SUM half of the invariant only (no cell lost, none counted twice): that `[a, b].concat()` lists the cells in EVALUATION order is not expressible through the branch-merging `if` / `match` arms and stays with the layout replay; the composition of the `match` bookkeeping pieces inside eval_union_match / eval_match / compile_decision_tree (the 15 pieces themselves -- arm start, arm end, padding, for arms and default arm of all three -- are under contract by rule X5; that the surrounding closures call them in this order for every arm is read off and replayed by `ffi_replay branch-state`), the copy of the returned list into Function::state_skeleton; of the two back-end translators only the arms of the six state instructions are under contract (unit backend_state), not the dispatch around them (that each MIR instruction reaches its arm, block order, jumps) nor the import-index table of wasmgen (that `rt.state_push` is the index of the import named state_push)",
         "state_get_host / state_set_host (copy through wasmtime linear memory)",
     ],
-    "explanation": "C05 storage sizing on the VM (unit vm_storage): an entry point with code runs on a global storage resized to exactly the total size of its published layout (words that exist before and after keep their values: hot swap), a closure's own storage is created zeroed with exactly the total size of the layout of ITS function and the cursor at the origin, cursor moves add / subtract the 24-bit operand, the context stack of closure calls is a plain stack; on the WASM side the size passed to closure_state_push is the total size of the layout of the resolved MIR function (get_mir_fn_state_size, emit_closure_state_push / pop in unit backend_state). C05 closure state contexts on the WASM host (unit wasm_state): a closure call makes the closure's storage the active context, creating it on the first call -- zeroed, sized from the closure's layout, cursor at the origin -- and leaving every existing storage untouched; a closure return resets the cursor of the RETURNING closure only, pops the context and moves nothing else (the caller continues in the middle of its body). C05 back-end translation (unit backend_state): each of the six MIR state instructions becomes the VM instruction / the host call with exactly its operand (offset, cell size = word size of the type, delay length), the VM Delay instruction names the delay-table entry that holds its own length (idx == old table length, table == old.push(max)), the feed cell is written with the size of the return type, and every WASM exchange buffer comes from the one static allocator (starts at the old alloc_offset, allocator advanced by max(size,1)*8: no overlap -- finding F14). C05 compile-time half (unit mirgen_state): generator invariant `cursor reached by the emitted code == push_sum` and `push_sum + pending move == total size of the cells returned so far`; every carrier that creates a cell keeps it AND emits the cell's instruction at exactly the cursor the returned layout (prefix sums in list order) assigns to that cell's own entry: emit_fncall (call of a stateful function: the callee's whole layout is one cell), the delay arm (arguments' cells first, then the delay), the mem arm, the Feed arm (`self`: read before the body, so its entry comes first -- finding F7, repaired); the If arm generates both branches from the same bookkeeping and merges them at a common cursor (finding F8, repaired); the three match implementations generate every arm from the cursor at the match moved past the cells of the earlier arms, flush the arm's pending move inside the arm and pad every arm to the end of all arms' cells (findings F9-F11, repaired; 15 extracted pieces, one shared contract per kind of piece); consume_and_insert_pushoffset emits the pending move exactly once; the function epilogue pops exactly push_sum, i.e. the cursor is back at the origin. C05 run-time half: (i) layout arithmetic (total_size, path_to_address = prefix sums, children tile the parent: lemma_addr_in_bounds, lemma_node_push) proved in Verus; (ii) each run-time primitive touches exactly the words of the cell at the cursor (Kani, bit-precise; for the WASM host functions additionally proved in Verus for a storage of ANY length: unit wasm_state -- cursor moves change only the cursor, mem swaps exactly the word at the cursor, delay performs exactly the one-step ring-buffer function on the cell's 2+len words, refused lengths change nothing, no lazy growth inside a layout-sized storage); (iii) VM and WASM host primitives perform the same transformation of the flat words (Kani relational harnesses); (iii') the VM instruction arms themselves (cut from Machine::execute) touch exactly their destination registers and the cell at the cursor, and the Mem / Delay arms agree bit for bit with the WASM host functions; (iv) k-step delay history lemma over the one-step spec (Verus unit delay_history: feeding x0,x1,.. and reading with delay d in [1,len-1] returns x[k-d], 0 before that).",
+    "explanation": "C05 closure calls on the VM (arm CallCls, unit vm_storage): the call runs the function of the closure the register names, as that closure, with the closure on top of the state-context stack, and the stack is as before when the call is over. C05 storage sizing on the VM (unit vm_storage): an entry point with code runs on a global storage resized to exactly the total size of its published layout (words that exist before and after keep their values: hot swap), a closure's own storage is created zeroed with exactly the total size of the layout of ITS function and the cursor at the origin, cursor moves add / subtract the 24-bit operand, the context stack of closure calls is a plain stack; on the WASM side the size passed to closure_state_push is the total size of the layout of the resolved MIR function (get_mir_fn_state_size, emit_closure_state_push / pop in unit backend_state). C05 closure state contexts on the WASM host (unit wasm_state): a closure call makes the closure's storage the active context, creating it on the first call -- zeroed, sized from the closure's layout, cursor at the origin -- and leaving every existing storage untouched; a closure return resets the cursor of the RETURNING closure only, pops the context and moves nothing else (the caller continues in the middle of its body). C05 back-end translation (unit backend_state): each of the six MIR state instructions becomes the VM instruction / the host call with exactly its operand (offset, cell size = word size of the type, delay length), the VM Delay instruction names the delay-table entry that holds its own length (idx == old table length, table == old.push(max)), the feed cell is written with the size of the return type, and every WASM exchange buffer comes from the one static allocator (starts at the old alloc_offset, allocator advanced by max(size,1)*8: no overlap -- finding F14). C05 compile-time half (unit mirgen_state): generator invariant `cursor reached by the emitted code == push_sum` and `push_sum + pending move == total size of the cells returned so far`; every carrier that creates a cell keeps it AND emits the cell's instruction at exactly the cursor the returned layout (prefix sums in list order) assigns to that cell's own entry: emit_fncall (call of a stateful function: the callee's whole layout is one cell), the delay arm (arguments' cells first, then the delay), the mem arm, the Feed arm (`self`: read before the body, so its entry comes first -- finding F7, repaired); the If arm generates both branches from the same bookkeeping and merges them at a common cursor (finding F8, repaired); the three match implementations generate every arm from the cursor at the match moved past the cells of the earlier arms, flush the arm's pending move inside the arm and pad every arm to the end of all arms' cells (findings F9-F11, repaired; 15 extracted pieces, one shared contract per kind of piece); consume_and_insert_pushoffset emits the pending move exactly once; the function epilogue pops exactly push_sum, i.e. the cursor is back at the origin. C05 run-time half: (i) layout arithmetic (total_size, path_to_address = prefix sums, children tile the parent: lemma_addr_in_bounds, lemma_node_push) proved in Verus; (ii) each run-time primitive touches exactly the words of the cell at the cursor (Kani, bit-precise; for the WASM host functions additionally proved in Verus for a storage of ANY length: unit wasm_state -- cursor moves change only the cursor, mem swaps exactly the word at the cursor, delay performs exactly the one-step ring-buffer function on the cell's 2+len words, refused lengths change nothing, no lazy growth inside a layout-sized storage); (iii) VM and WASM host primitives perform the same transformation of the flat words (Kani relational harnesses); (iii') the VM instruction arms themselves (cut from Machine::execute) touch exactly their destination registers and the cell at the cursor, and the Mem / Delay arms agree bit for bit with the WASM host functions; (iv) k-step delay history lemma over the one-step spec (Verus unit delay_history: feeding x0,x1,.. and reading with delay d in [1,len-1] returns x[k-d], 0 before that).",
     "samples": [
         {"obligation": "path_to_address::ensures", "clause": "r == Some((addr_off(self,path), size(node_at(self,path)))) iff wf_path"},
         {"obligation": "vm_delay_one_step_spec", "clause": "res == words[pos+2+(w+len-d)%len]; words'[pos]=r; words'[pos+1]=(w+1)%len; words'[pos+2+w]=input; all other words unchanged"},
